@@ -289,11 +289,7 @@ func judge(idx int64, sc scenario, o outcomeT) {
 
 func TestCheck(t *testing.T) {
 	g := grid()
-	reps := 1
-	if rt.Thorough() {
-		reps = 1500
-	}
-	rt.Cases(len(g), len(g)*reps, func(idx int64) {
+	rt.Cases(len(g)*3, len(g)*1500, func(idx int64) {
 		r := rt.CaseRand(10, idx)
 		rt.Case()
 		sc := g[int(idx)%len(g)]
